@@ -11,7 +11,8 @@ ASSUMPTIONS = [
 ]
 MENU = ["leaf:cw", "leaf:sh", "wrap:try", "ins:raise", "item:err", "item:unset", "flush:raise", "wrap:A", "wrap:N", "item:c", "ins:mkitem", "leaf:re", "shape:T", "shape:D", "shape:nest"]
 CATS = ["r2-batch", "r2-flush-count", "r2-menu", "r2-diverge", "r2-outcome", "crit-count", "hang", "worker-died"]
-LADDER = {"quick": [(5, 0, ["call"]), (4, 1, ["call"]), (3, 2, ["call"])], "thorough": [(6, 0, ["call"]), (5, 1, ["call"]), (4, 2, ["call"]), (2, 3, ["call"])]}
+_KD = {"opts": {"options": {"KEEP_DEPENDENCIES": True}}}  # maximal batching must not depend on a debug option
+LADDER = {"quick": [(5, 0, ["call"]), (4, 1, ["call"]), (3, 2, ["call"]), (4, 0, ["call"], _KD), (3, 1, ["call"], _KD)], "thorough": [(6, 0, ["call"]), (5, 1, ["call"]), (4, 2, ["call"]), (2, 3, ["call"]), (5, 0, ["call"], _KD), (4, 1, ["call"], _KD)]}
 SPEC = {"r1": True, "r2": True}
 
 
